@@ -304,6 +304,7 @@ func runCheck(o checkOpts) *checkResult {
 	var recs []oblRecord
 	var samples []interface{}
 	knownHit := map[string]bool{}
+	var knownReplayed []interface{}
 	nHelper := 0
 	for _, ob := range obls {
 		if ob.Helper {
@@ -335,6 +336,12 @@ func runCheck(o checkOpts) *checkResult {
 					}
 					knownHit[ob.Name] = true
 					rec.Verdict = "known-finding"
+					if o.tier == "thorough" && ob.Verdict == "failed" && ob.Model != "" {
+						if rp := tryReplay(w, o, ob); rp != nil {
+							rec.Note = fmt.Sprintf("known finding replayed on the real code: reproduced=%v %s", rp.Reproduced, rp.Reason)
+							knownReplayed = append(knownReplayed, map[string]interface{}{"obligation": ob.Name, "reproduced": rp.Reproduced, "reason": rp.Reason, "inputs": rp.Inputs, "observed": rp.Observed})
+						}
+					}
 				}
 			}
 			if !isKnown {
@@ -385,7 +392,7 @@ func runCheck(o checkOpts) *checkResult {
 		res.exit = 1
 	}
 	if !o.noEvidence && o.only == "" {
-		writeEvidence(w, o, seed, recs, samples, nProof-len(knownHit), nDis, nCover, len(res.violations), len(knownHit), time.Since(t0).Seconds(), solveSecs, mine, results)
+		writeEvidence(w, o, seed, recs, samples, nProof-len(knownHit), nDis, nCover, len(res.violations), len(knownHit), time.Since(t0).Seconds(), solveSecs, mine, results, knownReplayed)
 	}
 	say("property %s: %d obligations, %d discharged, %d known findings, %d cover checks, %d violations, %.1fs (load %.1fs, gen %.1fs, solve %.1fs)",
 		o.prop, nProof, nDis, len(knownHit), nCover, len(res.violations), time.Since(t0).Seconds(), w.loadSecs, genSecs, solveSecs)
@@ -403,7 +410,7 @@ func expectedCount(verif, prop string) int {
 }
 
 func writeEvidence(w *World, o checkOpts, seed int, recs []oblRecord, samples []interface{}, nProof, nDis, nCover, nViol, nKnown int,
-	wall, solveSecs float64, mine []*Contract, results []*FuncResult) {
+	wall, solveSecs float64, mine []*Contract, results []*FuncResult, knownReplayed []interface{}) {
 	var fns []string
 	notes := map[string]bool{}
 	for _, ct := range mine {
@@ -440,6 +447,9 @@ func writeEvidence(w *World, o checkOpts, seed int, recs []oblRecord, samples []
 			"arithmetic":  "fixed-width bit-vectors with Go wrap-around unless the contract says `arith int` (then mathematical integers with an overflow obligation on every + - *)",
 			"explanation": "each obligation is an SMT query generated from the go/ssa form of the function named, under its contract; unsat = discharged",
 		},
+	}
+	if len(knownReplayed) > 0 {
+		ev["coverage"].(map[string]interface{})["known_findings_replayed"] = knownReplayed
 	}
 	extendEvidence(w, o, ev)
 	os.MkdirAll(filepath.Join(o.verif, "evidence"), 0o755)
